@@ -28,6 +28,18 @@ CHECKS = {
 
 NOT_APPLICABLE = []
 
+CHECKS['C03'] = (
+    'symbolic execution of the transition table and of the compare-and-swap '
+    'state updates (criterion taken from the SQLAlchemy / oslo.db tree over a '
+    'symbolic row), and bounded exploration of real engine runs with two '
+    'solver-chosen operator commands at solver-chosen points',
+    'The table admits only transitions the property allows and never leaves '
+    'SUCCESS; state updates are true CAS; in every explored run with pause / '
+    'resume / stop commands injected anywhere, every workflow state change is '
+    'a chain of legal CAS moves, SUCCESS tasks and accepted action results '
+    'never change, finished workflows keep state and output.',
+    '§3 C03')
+
 CHECKS['C06'] = (
     'bounded exploration of real engine runs on minidb where the duplicated '
     'message, its position and redelivery point and the action outcomes are '
